@@ -6,7 +6,7 @@ wt=$1; hd=$2; sd=$3; shift 3
 cd "$wt" && git checkout -q -- . && git apply "$sd/patch.diff" || { echo "patch failed: $sd"; exit 2; }
 cd /verif
 for id in "$@"; do
-  VERIF_HARNESS_DIR=$hd ./check $id --tier quick > "$sd/run_$id.log" 2>&1
+  VERIF_WORK=/verif/work/mutwork VERIF_EVID=/verif/work/mutevid VERIF_REPLAYS=/verif/work/mutreplays VERIF_HARNESS_DIR=$hd ./check $id --tier quick > "$sd/run_$id.log" 2>&1
   rc=$?
   echo "$(date -u +%FT%TZ) $id rc=$rc $(grep -c '^VIOLATION' "$sd/run_$id.log") violation lines; first: $(grep -A1 '^VIOLATION' "$sd/run_$id.log" | sed -n 2p | cut -c1-200)" >> "$sd/runs.log"
 done
